@@ -121,6 +121,9 @@ pub async fn apply_event(w: World, m: &Model, e: Event) -> Result<World, String>
 /// Builds the state `root + history` on a fresh server; returns the world and
 /// the model state. The number of executed events is returned as well.
 pub async fn build_world(root: Root, history: &[Event]) -> Result<(World, Model, u64), String> {
+    // every world starts at the same logical time (the twin comparison needs
+    // identical timestamps in identical histories)
+    anda_db_utils::verif::set_clock(Some((1_700_000_000_000, 1)));
     let mut w = World::boot(root.has_admin().then_some(ADMIN_KEY)).await?;
     let mut m = Model::new(root.has_admin());
     let mut n = 0;
@@ -441,14 +444,37 @@ pub async fn run_state(tables: &Tables, root: Root, history: &[Event], select: &
         if model.dbs[d].bound.is_none() || !model.admin || !select.wants(&phase) {
             continue;
         }
+        let mut records: Vec<TenantRecord> = Vec::new();
         match build_world(root, history).await {
             Ok((mut w, _, n)) => {
                 cx.rep.add("events_executed", n);
                 cx.rep.add("worlds_built", 1);
-                phase_tenant(&mut cx, &mut w, &phase, d, &ps, &ts, &bs).await;
+                phase_tenant(&mut cx, &mut w, &phase, d, &ps, &ts, &bs, &mut records).await;
                 w.shutdown().await;
             }
             Err(e) => cx.rep.machinery.push(e),
+        }
+        // Twin world: the same history, then ONLY the other database is given
+        // different content. Every answer to the tenant must be byte-identical
+        // in both worlds (non-interference), whatever the method computes.
+        let o = 1 - d;
+        if model.dbs[o].status.is_open() {
+            let mut twin: Vec<TenantRecord> = Vec::new();
+            match build_world(root, history).await {
+                Ok((mut w, _, n)) => {
+                    cx.rep.add("events_executed", n);
+                    cx.rep.add("worlds_built", 1);
+                    match perturb_other(&mut w, o).await {
+                        Ok(()) => {
+                            phase_tenant(&mut cx, &mut w, &phase, d, &ps, &ts, &bs, &mut twin).await;
+                            compare_twins(&mut cx, &phase, d, &ps, &ts, &records, &twin);
+                        }
+                        Err(e) => cx.rep.machinery.push(format!("twin world: {e}")),
+                    }
+                    w.shutdown().await;
+                }
+                Err(e) => cx.rep.machinery.push(e),
+            }
         }
     }
     if select.wants("admin") {
@@ -715,7 +741,88 @@ async fn phase_reject(cx: &mut Ctx<'_>, w: &mut World, ps: &[Principal], ts: &[T
     }
 }
 
-async fn phase_tenant(cx: &mut Ctx<'_>, w: &mut World, phase: &str, d: usize, ps: &[Principal], ts: &[Target], bs: &[Body]) {
+/// Gives database `o` different content (as admin): two more documents, a
+/// database extension and a collection extension.
+async fn perturb_other(w: &mut World, o: usize) -> Result<(), String> {
+    let path = format!("/{}", DBS[o]);
+    for i in 0..2 {
+        w.admin_rpc(
+            &path,
+            "doc.add",
+            json!({"collection": COLLECTION, "doc": {"title": format!("twin extra {i}"), "body": "common text twin", "score": 90 + i}}),
+        )
+        .await?;
+    }
+    w.admin_rpc(&path, "db.save_extension", json!({"key": "twin", "value": "only in the twin world"})).await?;
+    w.admin_rpc(&path, "collection.save_extension", json!({"collection": COLLECTION, "key": "twin", "value": "only in the twin"})).await?;
+    let mut p = crate::world::collection_params("twin");
+    p["config"]["name"] = json!("twin_only");
+    w.admin_rpc(&path, "collection.create", p).await?;
+    Ok(())
+}
+
+fn compare_twins(
+    cx: &mut Ctx<'_>,
+    phase: &str,
+    d: usize,
+    ps: &[Principal],
+    ts: &[Target],
+    a: &[TenantRecord],
+    b: &[TenantRecord],
+) {
+    let m = cx.model;
+    let Some(p) = ps.iter().find(|p| p.kind == "bound-key" && m.holder_of(p.token.as_deref()) == Some(d)) else { return };
+    if a.len() != b.len() {
+        cx.rep.machinery.push(format!("twin worlds executed {} vs {} tenant cells", a.len(), b.len()));
+        return;
+    }
+    for (x, y) in a.iter().zip(b.iter()) {
+        cx.rep.add("twin_answers_compared", 1);
+        if x.label != y.label {
+            cx.rep.machinery.push(format!("twin worlds diverged: {} vs {}", x.label, y.label));
+            return;
+        }
+        if x.resp != y.resp {
+            // label: "POST <path> <enc> <body label> <variant>"
+            let method = x.label.split(' ').nth(3).unwrap_or("?").to_string();
+            let t = ts.iter().find(|t| Some(t.path.as_str()) == x.label.split(' ').nth(1)).unwrap_or(&ts[0]);
+            let mut replay = cx.replay(phase, p, t, None, None);
+            replay["cell"] = json!(x.label);
+            replay["request"] = x.req.to_json();
+            replay["response"] = x.resp.to_json();
+            replay["response_in_twin_world"] = y.resp.to_json();
+            let summary = format!(
+                "the answer to a caller confined to {} depends on the content of {}: {} vs {} [state {} after {} event(s); {}]",
+                DBS[d],
+                DBS[1 - d],
+                x.resp.to_json(),
+                y.resp.to_json(),
+                m.canon(),
+                cx.history.len(),
+                x.label
+            );
+            cx.rep.violation(Violation { signature: format!("C14|cross-db-dependence|{method}"), summary, replay });
+        }
+    }
+}
+
+/// One executed tenant cell, kept to compare the twin worlds.
+pub struct TenantRecord {
+    label: String,
+    req: Req,
+    resp: Resp,
+}
+
+async fn phase_tenant(
+    cx: &mut Ctx<'_>,
+    w: &mut World,
+    phase: &str,
+    d: usize,
+    ps: &[Principal],
+    ts: &[Target],
+    bs: &[Body],
+    records: &mut Vec<TenantRecord>,
+) {
     let m = cx.model;
     let o = 1 - d;
     let Some(p) = ps.iter().find(|p| p.kind == "bound-key" && m.holder_of(p.token.as_deref()) == Some(d)) else {
@@ -726,19 +833,39 @@ async fn phase_tenant(cx: &mut Ctx<'_>, w: &mut World, phase: &str, d: usize, ps
     let secrets = forbidden(m, Some(d));
     let prefix = format!("{}/", DBS[d]);
     let victim = o;
-    let mut before = dump(w, m, o).await;
+    // The dump of the other database is taken lazily, right before the first
+    // Mutating-classified cell: the bodies are ordered unknown/Read first, and
+    // those cells must meet the other database exactly as the history left it
+    // (cold if it is cold), so that a read that strays into it shows up as a
+    // store read under its prefix.
+    let mut before: Option<Value> = None;
+    let mut cell_no: u64 = 0;
     for (bi, b) in bs.iter().enumerate() {
         for enc in [Enc::Cbor, Enc::Json] {
             for t in &own {
                 let t: &Target = t;
                 let tclass = t.class(m, Some(d));
                 let req = cx.prepared.request(bi, &t.path, p.auth.clone(), enc, victim);
+                let effect = b.method().and_then(|n| effect_at(cx.tables, t, n));
+                if before.is_none() && effect == Some(Effect::Mutating) {
+                    before = Some(dump(w, m, o).await);
+                }
+                // every tenant cell starts at its own fixed logical time, so
+                // that the admin's dump requests in between (which consume
+                // clock ticks depending on the other database) cannot show
+                // up in the tenant's timestamps when the twin worlds are compared
+                cell_no += 1;
+                anda_db_utils::verif::set_clock(Some((1_900_000_000_000 + cell_no * 1_000, 1)));
                 let (resp, trace) = w.send(&req).await;
+                records.push(TenantRecord {
+                    label: format!("POST {} {} {} {:?}", t.path, enc.as_str(), b.label, b.variant()),
+                    req: req.clone(),
+                    resp: resp.clone(),
+                });
                 cx.rep.add("evaluations", 1);
                 cx.rep.add("cells_tenant", 1);
                 cx.distinct("tenant", p, &tclass, Some(enc), Some(b));
                 maybe_sample(cx, phase, p, t, enc, b, &resp, &trace);
-                let effect = b.method().and_then(|n| effect_at(cx.tables, t, n));
                 if resp.status == 200
                     && b.variant() == Some(Variant::Minimal)
                     && let Some(n) = b.method()
@@ -826,31 +953,40 @@ async fn phase_tenant(cx: &mut Ctx<'_>, w: &mut World, phase: &str, d: usize, ps
                 }
                 if effect == Some(Effect::Mutating) || !trace.mutations.is_empty() {
                     let after = dump(w, m, o).await;
-                    cx.rep.add("other_db_dumps_compared", 1);
-                    if after != before {
-                        cx.violate(
-                            format!("C14|cross-db-change|{}", b.label),
-                            format!(
-                                "a request of a caller confined to {} changed {} or server state: {}",
-                                DBS[d],
-                                DBS[o],
-                                first_diff(&before, &after)
-                            ),
-                            phase,
-                            p,
-                            t,
-                            Some(enc),
-                            Some(b),
-                            &req,
-                            &resp,
-                            json!({"before": before, "after": after}),
-                        );
-                        before = after;
+                    match &before {
+                        // a non-Mutating cell wrote before the first dump was
+                        // taken (reported above by path and effect): nothing
+                        // to compare with yet
+                        None => {}
+                        Some(b0) => {
+                            cx.rep.add("other_db_dumps_compared", 1);
+                            if after != *b0 {
+                                cx.violate(
+                                    format!("C14|cross-db-change|{}", b.label),
+                                    format!(
+                                        "a request of a caller confined to {} changed {} or server state: {}",
+                                        DBS[d],
+                                        DBS[o],
+                                        first_diff(b0, &after)
+                                    ),
+                                    phase,
+                                    p,
+                                    t,
+                                    Some(enc),
+                                    Some(b),
+                                    &req,
+                                    &resp,
+                                    json!({"before": b0, "after": after}),
+                                );
+                            }
+                        }
                     }
+                    before = Some(after);
                 }
             }
         }
     }
+    let Some(before) = before else { return };
     let after = dump(w, m, o).await;
     cx.rep.add("other_db_dumps_compared", 1);
     if after != before {
@@ -875,7 +1011,14 @@ async fn phase_tenant(cx: &mut Ctx<'_>, w: &mut World, phase: &str, d: usize, ps
 async fn phase_admin(cx: &mut Ctx<'_>, w: &mut World, ps: &[Principal], ts: &[Target], bs: &[Body]) {
     let m = cx.model;
     let phase = "admin";
-    let admins: Vec<&Principal> = ps.iter().filter(|p| m.is_admin_token(p.token.as_deref())).collect();
+    // On a loopback instance every caller is admin and the principal
+    // dimension is degenerate: four header shapes stand for it.
+    let loopback_subset = ["none", "garbage", "malformed:non-utf8", "admin"];
+    let admins: Vec<&Principal> = ps
+        .iter()
+        .filter(|p| m.is_admin_token(p.token.as_deref()))
+        .filter(|p| m.admin || loopback_subset.contains(&p.label.as_str()))
+        .collect();
     // when an admin key is configured there is exactly one admin principal;
     // on a loopback instance every principal is admin: the first one (no
     // credential at all) runs every body, the others only the non-mutating ones
